@@ -905,18 +905,15 @@ func (a *skSnap) diff(b *skSnap, tolerant bool) string {
 		return fmt.Sprintf("ForEach visits %d vs %d bins", len(a.Each), len(b.Each))
 	}
 	for i := range a.Each {
-		if fbits(a.Each[i].V) != fbits(b.Each[i].V) || fbits(a.Each[i].C) != fbits(b.Each[i].C) {
+		if fbits(a.Each[i].V) != fbits(b.Each[i].V) || !weightEq(a.Each[i].C, b.Each[i].C, tolerant) {
 			return fmt.Sprintf("ForEach bin #%d (%v,%v) vs (%v,%v)", i, a.Each[i].V, a.Each[i].C, b.Each[i].V, b.Each[i].C)
 		}
 	}
 	if tolerant {
-		ap, bp := *a.Pos, *b.Pos
-		an, bn := *a.Neg, *b.Neg
-		ap.Total, bp.Total, an.Total, bn.Total = 0, 0, 0, 0
-		if d := ap.diff(&bp); d != "" {
+		if d := diffStoreTolerant(a.Pos, b.Pos); d != "" {
 			return "positive store: " + d
 		}
-		if d := an.diff(&bn); d != "" {
+		if d := diffStoreTolerant(a.Neg, b.Neg); d != "" {
 			return "negative store: " + d
 		}
 		return ""
@@ -926,6 +923,38 @@ func (a *skSnap) diff(b *skSnap, tolerant bool) string {
 	}
 	if d := a.Neg.diff(b.Neg); d != "" {
 		return "negative store: " + d
+	}
+	return ""
+}
+
+// weightEq: bit equality in the exact regime; with weights that are not exactly
+// summable (after a mapping change) a bin is the sum of fractions accumulated
+// in the source's iteration order, so two executions of the same history may
+// differ by rounding (DESIGN 4.7).
+func weightEq(a, b float64, tolerant bool) bool {
+	if fbits(a) == fbits(b) {
+		return true
+	}
+	return tolerant && math.Abs(a-b) <= 1e-9*math.Max(math.Abs(a), math.Abs(b))
+}
+
+func diffStoreTolerant(a, b *storeSnap) string {
+	switch {
+	case a.Empty != b.Empty:
+		return fmt.Sprintf("IsEmpty %v vs %v", a.Empty, b.Empty)
+	case a.MinErr != b.MinErr || (!a.MinErr && a.Min != b.Min):
+		return fmt.Sprintf("MinIndex %d(err=%v) vs %d(err=%v)", a.Min, a.MinErr, b.Min, b.MinErr)
+	case a.MaxErr != b.MaxErr || (!a.MaxErr && a.Max != b.Max):
+		return fmt.Sprintf("MaxIndex %d(err=%v) vs %d(err=%v)", a.Max, a.MaxErr, b.Max, b.MaxErr)
+	case !weightEq(a.Total, b.Total, true):
+		return fmt.Sprintf("TotalCount %v vs %v", a.Total, b.Total)
+	case len(a.Bins) != len(b.Bins):
+		return fmt.Sprintf("%d vs %d non-empty bins", len(a.Bins), len(b.Bins))
+	}
+	for i := range a.Bins {
+		if a.Bins[i].Index != b.Bins[i].Index || !weightEq(a.Bins[i].Count, b.Bins[i].Count, true) {
+			return fmt.Sprintf("bin #%d %d:%v vs %d:%v", i, a.Bins[i].Index, a.Bins[i].Count, b.Bins[i].Index, b.Bins[i].Count)
+		}
 	}
 	return ""
 }
